@@ -119,7 +119,7 @@ def _ok(c):
 # ----------------------------------------------------------------------------- the check
 
 def engine_check(ctx: Ctx, profile, n_quick, n_thorough, nontrivial, monitor=None, tag=None,
-                 post=None, mutate=None, expand=None, extra_scns=()):
+                 post=None, mutate=None, expand=None, extra_scns=(), share=None):
     """Generate scenarios for `ctx.prop`, compare model and implementation, decide.
 
     nontrivial(scn, impl_lines, rt) -> bool ; monitor(scn, impl_lines, rt) -> list[str] failures
@@ -127,6 +127,11 @@ def engine_check(ctx: Ctx, profile, n_quick, n_thorough, nontrivial, monitor=Non
     list[str] extra harness-level assertions that are part of the property."""
     tag = tag or ctx.prop
     target = n_quick if ctx.tier == "quick" else n_thorough
+    # `share`: the fraction of the time still left that this family may use (so that the families run after it in
+    # the same check are not starved when the machine is busy)
+    import time as _time
+    t_family = _time.time()
+    t_max = ctx.left() * share if share else None
     known = {k["replay"]: k for k in known_findings(ctx.prop) if k.get("status") == "known"}
     stats = dict(evaluations=0, disagreements=0, monitor_failures=0, sends=0, ops=0)
     nontriv = set()
@@ -164,6 +169,9 @@ def engine_check(ctx: Ctx, profile, n_quick, n_thorough, nontrivial, monitor=Non
     while not done:
         if not pending:
             if stats["evaluations"] - n_corpus >= target or ctx.left() < 5:
+                break
+            if t_max is not None and _time.time() - t_family > t_max:
+                dist["stopped_by_time_share"] = 1
                 break
             for _ in range(chunk):
                 rng = random.Random(f"{ctx.seed}:{tag}:{i}")
